@@ -172,6 +172,37 @@ def run(ctx):
 
     for construct, ok, msg, rel, line in dir_hash_enumeration_obligations(repo):
         re_.check(ok, construct, msg, rel, line)
+    # ---- C04.8 a pickled file value carries a hash -----------------------------------------------------
+    # FileSet.is_valid()/File.is_valid() treat an unset hash as "fresh object": they hash and return True.  That is right for a value built in this
+    # process, but a value coming back from the cache must carry the hash it had when it was recorded -- __getstate__ therefore serialises the
+    # computed `self.hash`, not the raw cache field `self._hash` (None if nobody read the hash before pickling: record_value serialises first).
+    r8 = ctx.rule("C04.8", "__getstate__ of validity-checked file classes serialises the computed hash", floor=3)
+    GETSTATE_OK = {"ShardedS3Dataset": "always valid by design (is_valid returns True; dataset identity is its recorded file list)"}
+    fm8 = repo.mod("redun/file.py")
+    n8 = 0
+    for cm8, c8 in repo.subclasses(fm8.cls("File")) + repo.subclasses(fm8.cls("FileSet")):
+        gs = next((st for st in c8.body if isinstance(st, FuncNode) and st.name == "__getstate__"), None)
+        if gs is None:
+            continue
+        for d in ast.walk(gs):
+            if isinstance(d, ast.Dict):
+                for k, v in zip(d.keys, d.values):
+                    if isinstance(k, ast.Constant) and k.value == "hash":
+                        n8 += 1
+                        if c8.name in GETSTATE_OK:
+                            r8.good(f"{cm8.rel}:{c8.name}.__getstate__:hash", GETSTATE_OK[c8.name])
+                            continue
+                        r8.check(
+                            src(v) == "self.hash",
+                            f"{cm8.rel}:{c8.name}.__getstate__:hash",
+                            f"{c8.name}.__getstate__ pickles `{src(v)}` as the hash: when the hash was never read before the value was recorded (a task returns a fresh {c8.name}(path); record_value serialises "
+                            "before it asks for the hash) the stored state has hash None, and on replay is_valid() takes the unset hash for a fresh object, rehashes and returns True -- the cached result is "
+                            "replayed whatever happened to the files",
+                            cm8.rel,
+                            gs.lineno,
+                        )
+    if n8 < 3:
+        raise AnalysisError(f"only {n8} __getstate__ hash entries found in file classes", "redun/file.py")
 
 
 def _arm(facts) -> str:
